@@ -298,6 +298,10 @@ type Set struct {
 	BlankSibling []Ref `json:"blank_sibling,omitempty"`
 	// SiblingAfter: the same with the blank name after this one (var Name, _ = ...)
 	SiblingAfter bool `json:"sibling_after,omitempty"`
+	// JoinWith: id+1 of another set of the same package and file declared in THIS set's var spec,
+	// after it (var This, Other = wire.NewSet(..), wire.NewSet(..)); Joined marks that other set.
+	JoinWith int  `json:"join_with,omitempty"`
+	Joined   bool `json:"joined,omitempty"`
 }
 
 // Param is an injector parameter.
